@@ -22,7 +22,13 @@ def run(patch):
 
 seeded = [(sid, os.path.join(verif, "seeded", sid, "patch.diff")) for sid, props in sorted(expect["seeded"].items()) if prop in props]
 synthetic = [(sid, os.path.join(here, "synthetic", sid + ".diff")) for sid, props in sorted(expect.get("synthetic", {}).items()) if prop in props]
-controls = sorted(f for f in os.listdir(os.path.join(here, "controls")) if f.endswith(".diff")) if os.path.isdir(os.path.join(here, "controls")) else []
+all_controls = sorted(f for f in os.listdir(os.path.join(here, "controls")) if f.endswith(".diff")) if os.path.isdir(os.path.join(here, "controls")) else []
+# the property's own controls plus a fixed pseudo-random sample of the others (the full matrix — every control against
+# every property — is what selftest/regress.py runs; F1_SELFTEST_ALL=1 runs it here too)
+import hashlib
+own = [c for c in all_controls if c.startswith(prop + "-")]
+others = sorted((c for c in all_controls if not c.startswith(prop + "-")), key=lambda c: hashlib.sha1((prop + c).encode()).hexdigest())
+controls = own + (others if os.environ.get("F1_SELFTEST_ALL") == "1" else others[:16])
 
 res = {"seeded": len(seeded) + len(synthetic), "reported": 0, "controls": len(controls), "silent": 0, "skipped": 0, "failures": [], "details": []}
 jobs = [("seeded", sid, p) for sid, p in seeded + synthetic] + [("control", c[:-5], os.path.join(here, "controls", c)) for c in controls]
